@@ -431,7 +431,7 @@ func worker(args []string) {
 	run := lib.NewChildRun(prop)
 	base := lib.Scratch(prop)
 	defer os.RemoveAll(base)
-	total := int64(lib.Pick(320, 12000))
+	total := int64(lib.Pick(320, 6000))
 	for c := int64(i); c < total; c += int64(w) {
 		runCase(run, c, base)
 	}
